@@ -204,6 +204,45 @@ def streamEvents (client : Bool) (rsvOk : Nat → Nat → Bool) : Nat → MState
         if f.opcode = 8 then some [e]
         else (streamEvents client rsvOk fuel ms1 rest).map (e :: ·)
 
+/-! ### text frames through wsproto's incremental UTF-8 decoder (frames may end inside a character) -/
+
+/-- `MessageDecoder.process_frame` with the decoder: a TEXT frame starts a fresh decoder, every
+    frame of a text message is decoded with `final = message_finished`; `pend` = bytes the decoder
+    holds back.  Sequencing errors are raised before decoding. -/
+def frameEventU (ms : MState) (pend : Bytes) (f : Frame) : Option (MState × Bytes × WsEv) :=
+  match frameEvent ms f with
+  | none => none
+  | some (ms1, .msg true _ ff mf) =>
+    match incDecode (if ms.isNone then [] else pend) f.payload f.fin with
+    | none => none                                   -- ParseFailed(INVALID_FRAME_PAYLOAD_DATA)
+    | some r => some (ms1, r.2, .msg true r.1 ff mf)
+  | some (ms1, e) => some (ms1, pend, e)
+
+def framesEventsU (ms : MState) (pend : Bytes) : List Frame → Option (MState × Bytes × List WsEv)
+  | [] => some (ms, pend, [])
+  | f :: fs =>
+    match frameEventU ms pend f with
+    | none => none
+    | some (ms1, p1, e) =>
+      if f.opcode = 8 then some (ms1, p1, [e])
+      else
+      match framesEventsU ms1 p1 fs with
+      | none => none
+      | some (ms2, p2, es) => some (ms2, p2, e :: es)
+
+def streamEventsU (client : Bool) (rsvOk : Nat → Nat → Bool) : Nat → MState → Bytes → Bytes → Option (List WsEv)
+  | 0, _, _, _ => some []
+  | fuel + 1, ms, pend, bs =>
+    match decodeFrame client rsvOk bs with
+    | .more => some []
+    | .fail => none
+    | .ok f rest =>
+      match frameEventU ms pend f with
+      | none => none
+      | some (ms1, p1, e) =>
+        if f.opcode = 8 then some [e]
+        else (streamEventsU client rsvOk fuel ms1 p1 rest).map (e :: ·)
+
 /-- the peer's view: reassemble complete messages from data frames (control frames skipped) -/
 def reassemble (acc : Option (Bool × Bytes)) : List WsEv → List (Bool × Bytes)
   | [] => []
